@@ -34,7 +34,7 @@ def plan(tier, seed):
     specs = [{"kind": "calls", "part": i, "of": n} for i in range(n)]
     specs += [{"kind": "forms", "part": i, "of": 2} for i in range(2)]
     specs += [{"kind": "alias", "n": 700 if tier == "quick" else 8000} for _ in range(4 if tier == "quick" else 12)]
-    specs += [{"kind": "probes"}]
+    specs += [{"kind": "probes"}, {"kind": "suite"}]
     return specs
 
 
@@ -399,6 +399,9 @@ def run_alias(spec, ctx):
 
 def run_shard(spec, ctx):
     kind = spec["kind"]
+    if kind == "suite":
+        from cklmon import suite
+        return suite.run_suite(ctx, "C16", "M5,payload")
     if kind == "calls":
         callees = matrix.discover_callees(True)
         mine = [c for i, c in enumerate(callees) if i % spec["of"] == spec["part"]]
@@ -429,4 +432,6 @@ def finalize(merged, tier):
             reasons.append("monitor counter %s is zero" % k)
     if not all(ex.get("hook_ok", True) for spec, ex in merged["shard_docs"]):
         reasons.append("invoke hook could not be installed")
+    if merged["counters"].get("suite_tests", 0) == 0 or merged["counters"].get("suite_report_missing", 0):
+        reasons.append("M9: the repository suite under monitors produced no observations")
     return {}, reasons
